@@ -19,7 +19,9 @@ import time
 
 VERIF = os.path.dirname(os.path.dirname(os.path.abspath(__file__)))
 REPO = os.environ.get("VERIF_REPO", "/repo")
-BUILD = os.path.join(VERIF, "build")
+# VERIF_REPO / VERIF_BUILD: only for testing seeded changes in a scratch worktree without touching /repo
+# (scripts/seedtest_wt.sh); the registered commands never set them
+BUILD = os.environ.get("VERIF_BUILD", os.path.join(VERIF, "build"))
 HOOKS = os.path.join(BUILD, "hooks")
 HARNESS_SRC = os.path.join(VERIF, "harness")
 HARNESS_BIN = os.path.join(BUILD, "harness")
@@ -110,6 +112,9 @@ def ensure_hooks_build(targets=None):
         if not os.path.exists(os.path.join(HOOKS, "build.ninja")):
             sh('cmake -G Ninja -S %s -B %s -DCMAKE_BUILD_TYPE=RelWithDebInfo '
                '-DCMAKE_CXX_FLAGS="%s"' % (REPO, HOOKS, HOOK_FLAGS), check=True, timeout=600)
+            if os.path.isfile(os.path.join(REPO, ".git")):
+                # a git worktree: the generated build file depends on a .git/HEAD that does not exist
+                sh("sed -i 's| %s/.git/HEAD||g; s|%s/.git/HEAD||g' %s/build.ninja" % (REPO, REPO, HOOKS), check=True)
         t = " ".join(targets or LIBS)
         rc, out = sh("ninja -C %s %s" % (HOOKS, t), timeout=1800)
         if rc != 0:
